@@ -118,6 +118,7 @@ impl Sys {
         if let Some(v) = geti("agg") { opts.roa_aggregate_threshold = v as usize; }
         if let Some(v) = geti("deagg") { opts.roa_deaggregate_threshold = v as usize; }
         if let Some(v) = geti("suspend") { opts.suspend_seconds = Some(v as u32); }
+        if let Some(v) = geti("histcache") { opts.history_cache = v != 0; }
         let mut timing = default_timing();
         if let Some(v) = geti("next_hours") { timing.timing_publish_next_hours = v as u32; }
         if let Some(v) = geti("next_jitter") { timing.timing_publish_next_jitter_hours = v as u32; }
@@ -293,6 +294,14 @@ impl Sys {
             }
             ["cadelete", ca] => {
                 cm.delete_ca(&h(ca), actor, krill)?;
+                Ok("ok".into())
+            }
+            ["history", ca] => {
+                let hist = cm.ca_history(&h(ca), krill::api::history::CommandHistoryCriteria::default())?;
+                Ok(format!("ok:{}", hist.total))
+            }
+            ["historyq", ca] => {
+                let _ = cm.ca_history(&h(ca), krill::api::history::CommandHistoryCriteria::default())?;
                 Ok("ok".into())
             }
             ["sync", ca, parent] => {
